@@ -27,8 +27,8 @@ Proof. unfold view_new. pose proof (enc_len_ge4 v). replace (blen (encode_value 
 (* as_value on a stored document *)
 Lemma as_value_enc v : fits v = true -> as_value (encode_value v) = Ok (jv_of v).
 Proof.
-  unfold fits. intros H. apply andb_true_iff in H. destruct H as [Hwf Hlen]. apply Z.leb_le in Hlen.
-  destruct v as [| bb | x | s | els | kvs].
+  unfold fits. intros H. apply andb_true_iff in H. destruct H as [Hwf Hlen].
+  destruct v as [| bb | x | s | els | kvs]; cbn [is_str orb] in Hlen; try apply Z.leb_le in Hlen.
   - unfold as_value, root_type. cbn [encode_value]. rewrite <- (app_nil_r (u32le _)).
     rewrite header_u32 by (vm_compute; split; congruence). reflexivity.
   - unfold as_value, root_type, entry_count. cbn [encode_value]. rewrite <- (app_nil_r (u32le _)).
@@ -68,8 +68,8 @@ Qed.
 
 Lemma fits_nested v : fits v = true -> (forall s, v <> JStr s) -> wf_json true v = true /\ blen (encode_value v) <= 2 ^ 24.
 Proof.
-  unfold fits. intros H Hs. apply andb_true_iff in H. destruct H as [Hwf Hlen]. split; [|lia].
-  destruct v; try exact Hwf. exfalso. eapply Hs. reflexivity.
+  unfold fits. intros H Hs. apply andb_true_iff in H. destruct H as [Hwf Hlen].
+  destruct v; cbn [is_str orb] in Hlen; try (split; [exact Hwf|lia]). exfalso. eapply Hs. reflexivity.
 Qed.
 
 Lemma roundtrip_l : forall j, fits j = true -> tree_of_view (S (depth j)) (encode_value j) = Ok (canon j).
